@@ -30,7 +30,7 @@ m = {
     'engines': [{'name': 'ir2c+cbmc', 'path': 'tools/', 'serves_properties': claimed,
                  'kind_free_text': 'clang++-14 -O1 LLVM IR of /repo sources + extern "C" shims -> tools/ir2c.py (C over a flat word-addressed memory) -> cbmc 6.11 (minisat; kissat second solver in thorough) ; counterexamples replayed against natively compiled real code'}],
     'checks': checks,
-    'notes': 'exit 0: all obligations discharged within the stated bounds; exit 1: VIOLATION (counterexample reproduced natively against the real code, or a memory-model violation); exit 2: machinery problem (build error, vacuous harness, failed unwinding assertion, unreproducible counterexample, or more than max(2, 10%) of a property's queries without a verdict). A single query that reaches its time or memory cap is retried once with doubled limits; if it still has no verdict it is printed as UNDECIDED, listed under coverage.undecided in the evidence, not counted as explored, and does not fail the check. known_findings.json lists repaired (fixed) and recorded (open) defects.',
+    'notes': 'exit 0: all obligations discharged within the stated bounds; exit 1: VIOLATION (counterexample reproduced natively against the real code, or a memory-model violation); exit 2: machinery problem (build error, vacuous harness, failed unwinding assertion, unreproducible counterexample, or more than max(2, 10%) of the queries of a property without a verdict). A single query that reaches its time or memory cap is retried once with doubled limits; if it still has no verdict it is printed as UNDECIDED, listed under coverage.undecided in the evidence, not counted as explored, and does not fail the check. known_findings.json lists repaired (fixed) and recorded (open) defects.',
     'not_applicable': na,
 }
 json.dump(m, open(os.path.join(V, 'MANIFEST.json'), 'w'), indent=1)
